@@ -90,6 +90,15 @@ def transcript(sc, d):
             except (wn.Error, KeyError) as e:
                 icx[lexspec + '|' + exp] = type(e).__name__
         out['ic_by_configuration'] = [icx[a + '|' + b] for a, b in [('b:1', 'a:1'), ('b:1', ''), ('a:1', ''), ('a:1', 'e:1')]]
+        # default expand lexicons of lexicons with several declared dependencies
+        if any(l.id == 'dx' for l in wn.lexicons()):
+            with warnings.catch_warnings(record=True) as caught:
+                warnings.simplefilter('always')
+                wd = wn.Wordnet('dx:1 dy:1')
+                out['default_expand'] = {'expanded': [f'{l.id}:{l.version}' for l in wd.expanded_lexicons()],
+                                         'describe': wd.describe(), 'warnings': [str(c.message) for c in caught],
+                                         'hypernyms': [[y.id, [t.id for t in y.hypernyms()], [[r.name, r.lexicon().id, t.id] for r, t in y.relation_map().items()]]
+                                                       for y in wd.synsets()]}
         # lookups with a lemmatizer
         lw = wn.Wordnet('a:1', lemmatizer=Morphy(wn.Wordnet('a:1')))
         out['lookups'] = [[q, [x.id for x in lw.words(q)], [x.id for x in lw.synsets(q)], [x.id for x in wn.words(q)]] for q in sc['queries']]
